@@ -63,10 +63,10 @@ def _strip(l):
     return l
 
 
-def analyse(ctx, n, tag=""):
+def analyse(ctx, n, tag="", only=None):
     """Run harness + model, classify. Returns dict(stats, s2_diffs, nviol)."""
     res = {"ok": False, "detail": None, "s2": [], "stats": "", "ops": 0, "nontrivial": 0, "samples": [], "viol": 0}
-    rc, out = ctx.harness("c07", [n])
+    rc, out = ctx.harness("c07", [n] + ([only] if only is not None else []))
     if rc != 0:
         res["detail"] = "harness failed rc=%s: %s" % (rc, (out or "")[-1500:])
         return res
@@ -126,10 +126,22 @@ def analyse(ctx, n, tag=""):
     return res
 
 
+def _replay_target(ctx):
+    """--replay <file>: re-run exactly the history the replay file names (same seed, same batch size)."""
+    if not getattr(ctx, "replay", None):
+        return None
+    import json
+    o = json.load(open(ctx.replay))
+    m = re.search(r"bin c07 (\d+) (\d+)", o.get("reproduce", ""))
+    ctx.seed = int(o.get("seed", ctx.seed))
+    return (int(m.group(1)), int(m.group(2))) if m else None
+
+
 def run(ctx):
     s1 = ctx.proof_obligations()
     n = 260 if ctx.quick else 5000
-    r = analyse(ctx, n)
+    rp = _replay_target(ctx)
+    r = analyse(ctx, rp[0], only=rp[1]) if rp else analyse(ctx, n)
     s2_ok, detail, searched = True, None, None
     if not r["ok"]:
         s2_ok, detail = False, r["detail"]
